@@ -123,15 +123,21 @@ CLAIMS["C18"] = dict(
 
 CLAIMS["C15"] = dict(
     category="proof",
-    text=("Polynomial identities by symbolic execution of the predict/correct closures: with UCorrection = U_{n+1} - U_pred they "
-          "realise U_{n+1} = U + dt V + dt^2[(1/2-beta)A + beta A_{n+1}] and V_{n+1} = V + dt[(1-gamma)A + gamma A_{n+1}] exactly; "
-          "the inertia term of the algorithmic energy is the kinetic density 1/2 rho v.v of (U - U_pred) scaled by the same "
-          "1/(beta dt^2) as the corrector (stationarity = f_int + M A_{n+1}), the element Hessian uses the same factor, and "
-          "the factory feeds the same Newmark parameters everywhere. Energy conservation, exact rigid translation and the mass "
-          "sum are trajectory/numerical statements and are NOT decided. Also decided (structurally, not by identities): every closure of create_dynamics_functions forwards the same (post-projection) gradient transformation, "
-          "and the 2-D mode dispatch selects the hoop-strain transformation exactly for 'axisymmetric' and agrees with the statics factory."),
-    design_ref="DESIGN.md section 4, C15",
-    technique="static analysis: symbolic execution of straight-line closures into exact rational normal forms; factor/field agreement between sibling functions")
+    text=("Exact rational identities obtained by abstractly interpreting Mechanics.create_dynamics_functions on symbolic data (optilint.tensoreval; "
+          "an integral over the mesh is represented by its integrand at one generic point, which is exact because integration and interpolation are "
+          "linear; the material's strain energy is an opaque function of its arguments): the returned predict/correct, with UCorrection = U_{n+1} - "
+          "U_pred, realise U_{n+1} = U + dt V + dt^2[(1/2-beta)A + beta A_{n+1}] and V_{n+1} = V + dt[(1-gamma)A + gamma A_{n+1}] exactly; the "
+          "strain part of the returned algorithmic energy is the material energy of the (transformed) gradient of U with weight 1, and the "
+          "derivative of its inertia part with respect to U is rho (U - U_pred)/(beta dt^2) = M A_{n+1} with the corrector's A_{n+1} "
+          "(stationarity = f_int + M A_{n+1} = 0); the density handed to the element-stiffness kernel has the same strain part, linearised "
+          "about U, and inertia Hessian rho/(beta dt^2) I; the factory wires the material's density, dt and the Newmark beta into these. The "
+          "rules go through the factory's public return slots only, so helper extraction, renaming, moving the factor into the integrand, "
+          "lambda/def changes etc. do not matter. Energy conservation, exact rigid translation and the mass sum are trajectory/numerical "
+          "statements and are NOT decided. Also decided (structurally): every closure of create_dynamics_functions forwards the same "
+          "(post-projection) gradient transformation, and the 2-D mode dispatch selects the hoop-strain transformation exactly for "
+          "'axisymmetric' and agrees with the statics factory."),
+    design_ref="DESIGN.md section 4, C15 and section 11.8",
+    technique="static analysis: abstract interpretation of the factory and its closures over exact rational normal forms with opaque callables; algebraic identities on the results")
 
 CLAIMS["C20"] = dict(
     category="other",
